@@ -1,0 +1,7 @@
+//go:build !verif
+
+package api
+
+func verifEvent(point string, args ...any) {}
+
+func verifYield(point string) {}
